@@ -243,7 +243,9 @@ LkViol(mm, m2, e) ==
              Cardinality({j \in Mine(i) : k2.lreqs[j].rid \notin m2.answered /\ k2.aged - k2.lreqs[j].at < mm.cfg.pto}) > mm.cfg.par
         THEN {"C09.InFlight"} ELSE {})
   \cup UNION {LET d == dn[x]  i == CallIdx(d.call) IN
-              IF i = 0 \/ ~d.ok THEN {} ELSE
+              IF i = 0 THEN {}
+              ELSE IF ~d.ok THEN (IF mm.running THEN {"C09.ResultLost"} ELSE {})     \* the caller got an error instead of the result although the service runs
+              ELSE
               LET c == k2.calls[i]
                   owners == [y \in 1..Len(d.res) |-> RecOwner(d.res[y])]
                   answeredBy == {k2.lreqs[j].to : j \in {j \in Mine(i) : k2.lreqs[j].rid \in k2.nodesok}}
